@@ -85,6 +85,22 @@ func (g *vfhGate) pass(ctx context.Context) error {
 	}
 }
 
+// vfhKey: an endpoint is its whole URL - two endpoints may differ in nothing but the query.
+func vfhKey(req *http.Request) string {
+	if req.URL.RawQuery != "" {
+		return req.URL.Path + "?" + req.URL.RawQuery
+	}
+	return req.URL.Path
+}
+
+// vfhPaths names the two endpoints of a world: every second world uses one path and tells them apart by the query only.
+func vfhPaths(prefix string, n int) (string, string) {
+	if n%2 == 1 {
+		return fmt.Sprintf("/%s%d/rules?tenant=e1&v=1", prefix, n), fmt.Sprintf("/%s%d/rules?tenant=e2&v=1", prefix, n)
+	}
+	return fmt.Sprintf("/%s%d/e1", prefix, n), fmt.Sprintf("/%s%d/e2", prefix, n)
+}
+
 func (s *vfhScript) get(path string) vfhOutcome {
 	s.mu.RLock()
 	defer s.mu.RUnlock()
@@ -106,7 +122,7 @@ func (s *vfhScript) started(path string) *int64 {
 }
 
 func (s *vfhScript) ServeHTTP(w http.ResponseWriter, req *http.Request) {
-	o := s.get(req.URL.Path)
+	o := s.get(vfhKey(req))
 	switch o.kind {
 	case vfh404:
 		w.WriteHeader(http.StatusNotFound)
@@ -130,13 +146,13 @@ type vfhTransport struct {
 }
 
 func (t *vfhTransport) RoundTrip(req *http.Request) (*http.Response, error) {
-	atomic.AddInt64(t.script.started(req.URL.Path), 1)
-	if g, ok := t.script.gates.Load(req.URL.Path); ok {
+	atomic.AddInt64(t.script.started(vfhKey(req)), 1)
+	if g, ok := t.script.gates.Load(vfhKey(req)); ok {
 		if err := g.(*vfhGate).pass(req.Context()); err != nil {
 			return nil, err
 		}
 	}
-	switch t.script.get(req.URL.Path).kind {
+	switch t.script.get(vfhKey(req)).kind {
 	case vfhRefused:
 		c, err := (&net.Dialer{}).DialContext(req.Context(), "tcp", t.refused)
 		if err == nil {
@@ -390,7 +406,7 @@ func vfhDirect(r *core.Run, script *vfhScript, baseURL string) {
 		}
 		total := vfPow(len(alpha), n)
 		vfParallel(r, total, func(wk int) (func(int, *vfStats), func()) {
-			p1, p2 := fmt.Sprintf("/w%d/e1", wk), fmt.Sprintf("/w%d/e2", wk)
+			p1, p2 := vfhPaths("w", wk)
 			eps, err := vfhEndpoints(baseURL, p1, p2)
 			if err != nil {
 				r.Inconclusive("http: endpoint config: " + err.Error())
@@ -503,7 +519,7 @@ func vfhPoll(r *core.Run, script *vfhScript, baseURL string) {
 }
 
 func vfhRunPoll(r *core.Run, script *vfhScript, baseURL string, n int, seq []int, st *vfStats) (int, bool) {
-	p1, p2 := fmt.Sprintf("/poll%d/e1", n), fmt.Sprintf("/poll%d/e2", n)
+	p1, p2 := vfhPaths("poll", n)
 	w := &vfhWorld{script: script, tag: fmt.Sprintf("p%d-", n), eps: map[string]*vfhEndpointState{"e1": {path: p1}, "e2": {path: p2}}}
 	w.eps["e1"].cur, w.eps["e2"].cur = vfhOutcome{kind: vfh404}, vfhOutcome{kind: vfh404}
 	script.set(p1, w.eps["e1"].cur)
